@@ -224,9 +224,26 @@ func Explore(prog *ssa.Program, h *Harness, opts Options) *Result {
 			mu.Unlock()
 			defer in.solver.close()
 			for {
-				prefix, ok := q.pop()
-				if !ok {
-					break
+				var prefix []int32
+				if n := len(in.local); n > 0 {
+					// depth-first on the worker's own stack keeps related paths (and
+					// their memoised set-up work) on one worker
+					prefix = in.local[n-1]
+					in.local = in.local[:n-1]
+					if len(in.local) > 1 && q.hungry() {
+						// donate the older half (the larger subtrees)
+						half := len(in.local) / 2
+						for _, p := range in.local[:half] {
+							q.push(p)
+						}
+						in.local = append(in.local[:0:0], in.local[half:]...)
+					}
+				} else {
+					var ok bool
+					prefix, ok = q.pop()
+					if !ok {
+						break
+					}
 				}
 				if !opts.Deadline.IsZero() && time.Now().After(opts.Deadline) {
 					mu.Lock()
